@@ -1,5 +1,229 @@
-import Uquic.Model.FlowControl
+/-
+Property C04 — flow control: senders within credit, receivers enforce it.
+
+All theorems are about `Uquic.Model.FlowControl` (one connection controller + its stream
+controllers, every Go method one atomic step) and quantify over *all* histories: `Reach s` is any
+state reachable from a fresh connection by any interleaving of operations that respect the caller
+contract `Pre` (non-negative offsets; `AddBytesRead` only for bytes that were received;
+`AddBytesSent` only up to `SendWindowSize()`), with arbitrary times, RTTs and callback answers.
+`ReachOk` additionally says that no fatal error (FLOW_CONTROL_ERROR, FINAL_SIZE_ERROR, panic) has
+occurred yet, i.e. the connection is still open.
+
+The theorems depend on the regenerated facts `Uquic.Gen.Flowcontrol.*` (comparison operators of
+the window checks, nil-guard shape facts, tuning constants) through the model.
+-/
+import Uquic.Proofs.FlowMono
+import Uquic.Proofs.FlowOk
+
+set_option linter.unusedVariables false
+
 namespace Uquic.Props.C04
-open Uquic.Model.FlowControl
-theorem placeholder : (1 : Nat) = 1 := rfl
+open Uquic.Model.FlowControl Uquic.Proofs.Flow
+
+/-! ## 1. the sender stays within the credit the peer advertised -/
+
+/-- Per stream and summed over the connection, the bytes sent never exceed the send window
+    (which is the largest limit the peer ever advertised, see `send_window_is_largest_seen`), and
+    the connection counter is exactly the sum of the stream counters. -/
+theorem sender_within_credit {s : State} (h : Reach s) :
+    (∀ st ∈ s.streams, 0 ≤ st.base.bytesSent ∧ st.base.bytesSent ≤ st.base.sendWindow) ∧
+    s.conn.bytesSent = sumBy (·.base.bytesSent) s.streams ∧
+    s.conn.bytesSent ≤ s.conn.sendWindow := by
+  have hi := h.inv
+  exact ⟨fun st hst => ⟨(hi.streams st hst).bs0, (hi.streams st hst).bs⟩, hi.sent, hi.conn.bs⟩
+
+theorem resetOk_only_reset {s : State} {op : Op} (h : (step s op).2 = .resetOk) : op = .reset := by
+  cases op <;> simp only [step, stepT] at h
+  all_goals (first | rfl | (repeat' split at h) <;> simp at h)
+
+/-- MAX_STREAM_DATA / MAX_DATA frames — in any order, duplicated or stale — never decrease a send
+    window: a frame sets it to the maximum of the old limit and the frame's value, and no other
+    operation (except the 0-RTT-rejection reset, which discards all streams) moves it. -/
+theorem send_window_monotone {s : State} (h : Reach s) (op : Op) (hp : Pre s op) (hr : op ≠ .reset) :
+    s.conn.sendWindow ≤ (step s op).1.conn.sendWindow ∧
+    (∀ v, op = .cmax v → (step s op).1.conn.sendWindow = max s.conn.sendWindow v) ∧
+    ((∀ v, op ≠ .cmax v) → (step s op).1.conn.sendWindow = s.conn.sendWindow) ∧
+    ∀ id st, s.streams[id]? = some st → ∃ st', (step s op).1.streams[id]? = some st' ∧
+      st.base.sendWindow ≤ st'.base.sendWindow ∧
+      (∀ v, op = .smax id v → st'.base.sendWindow = max st.base.sendWindow v) ∧
+      ((∀ v, op ≠ .smax id v) → st'.base.sendWindow = st.base.sendWindow) := by
+  have hno : (step s op).2 ≠ .resetOk := fun e => hr (resetOk_only_reset e)
+  have c := conn_step op h.inv hp
+  refine ⟨(c.send hno).sw, c.swMax, fun hne => c.swFrame hne hno, ?_⟩
+  intro id st hs
+  obtain ⟨st', h1, h2⟩ := stream_step op h.inv hp hs hno
+  exact ⟨st', h1, h2.send.sw, h2.swMax, h2.swFrame⟩
+
+/-- the largest MAX_DATA value seen in a history, starting from limit `w` -/
+def largestMaxData (w : Int) : List Op → Int
+  | [] => w
+  | .cmax v :: ops => largestMaxData (max w v) ops
+  | _ :: ops => largestMaxData w ops
+
+/-- After any history (without a 0-RTT reset) the connection send window is exactly the largest
+    MAX_DATA the peer ever sent — reordering and duplication are irrelevant. -/
+theorem send_window_is_largest_seen {s : State} (h : Reach s) (ops : List Op) (hv : ValidFrom s ops)
+    (hn : ∀ op ∈ ops, op ≠ .reset) :
+    (run s ops).conn.sendWindow = largestMaxData s.conn.sendWindow ops := by
+  induction ops generalizing s with
+  | nil => rfl
+  | cons op ops ih =>
+    have hr : op ≠ .reset := hn op (by simp)
+    obtain ⟨_, m1, m2, _⟩ := send_window_monotone h op hv.1 hr
+    have ih' := ih (Reach.step op h hv.1) hv.2 (fun o ho => hn o (by simp [ho]))
+    simp only [run]
+    rw [ih']
+    cases op with
+    | cmax v => simp only [largestMaxData]; rw [m1 v rfl]
+    | _ => simp only [largestMaxData]; rw [m2 (by intro v; simp)]
+
+/-! ## 2. "newly blocked" is reported at most once per limit -/
+
+/-- the offsets reported by `connFlowController.IsNewlyBlocked() = (true, offset)` along a history -/
+def connBlockedReports (s : State) : List Op → List Int
+  | [] => []
+  | op :: ops =>
+    (match op, (step s op).2 with
+     | .cblocked, .blocked true off => [off]
+     | _, _ => []) ++ connBlockedReports (step s op).1 ops
+
+/-- the limits (`sendWindow` at the time of the call) at which stream `id` reported
+    `IsNewlyBlocked() = true` along a history -/
+def streamBlockedReports (id : Nat) (s : State) : List Op → List Int
+  | [] => []
+  | op :: ops =>
+    (match op, (step s op).2, s.streams[id]? with
+     | .sblocked i, .blocked true _, some st => if i = id then [st.base.sendWindow] else []
+     | _, _, _ => []) ++ streamBlockedReports id (step s op).1 ops
+
+theorem conn_blocked_aux {s : State} (h : Reach s) (ops : List Op) (hv : ValidFrom s ops)
+    (hn : ∀ op ∈ ops, op ≠ .reset) :
+    (∀ x ∈ connBlockedReports s ops, s.conn.lastBlockedAt < x) ∧
+    (connBlockedReports s ops).Pairwise (· < ·) := by
+  induction ops generalizing s with
+  | nil => simp [connBlockedReports]
+  | cons op ops ih =>
+    have hr : op ≠ .reset := hn op (by simp)
+    have hno : (step s op).2 ≠ .resetOk := fun e => hr (resetOk_only_reset e)
+    have c := conn_step op h.inv hv.1
+    have lbm := (c.send hno).lb
+    obtain ⟨ih1, ih2⟩ := ih (Reach.step op h hv.1) hv.2 (fun o ho => hn o (by simp [ho]))
+    simp only [connBlockedReports]
+    by_cases hcb : op = .cblocked
+    · subst hcb
+      have hlb := h.inv.conn.lb
+      obtain ⟨u1, u2, u3, u4, u5, u6, u7, u8⟩ := blocked_spec s.conn
+      simp only [step, stepT] at ih1 ih2 lbm ⊢
+      rcases u8 with ⟨e1, e2⟩ | ⟨e1, e2, e3, e4, e5⟩
+      · simp only [e1]
+        simp only [List.nil_append]
+        exact ⟨fun x hx => by have := ih1 x hx; omega, ih2⟩
+      · simp only [e1, e2]
+        simp only [List.singleton_append, List.mem_cons, List.pairwise_cons]
+        refine ⟨?_, ?_, ih2⟩
+        · intro x hx
+          rcases hx with hx | hx
+          · omega
+          · have := ih1 x hx; omega
+        · intro x hx; have := ih1 x hx; omega
+    · have : (match op, (step s op).2 with
+              | .cblocked, .blocked true off => [off]
+              | _, _ => ([] : List Int)) = [] := by
+        cases op <;> first | rfl | exact absurd rfl hcb
+      rw [this]
+      simp only [List.nil_append]
+      exact ⟨fun x hx => by have := ih1 x hx; omega, ih2⟩
+
+/-- **blocked_once (connection).** Along any history the offsets for which the connection reports
+    "newly blocked" are strictly increasing: no limit is ever reported twice, for any interleaving
+    of sends, MAX_DATA frames (also stale ones) and queries. -/
+theorem blocked_once {s : State} (h : Reach s) (ops : List Op) (hv : ValidFrom s ops)
+    (hn : ∀ op ∈ ops, op ≠ .reset) : (connBlockedReports s ops).Pairwise (· < ·) :=
+  (conn_blocked_aux h ops hv hn).2
+
+theorem stream_blocked_aux (id : Nat) {s : State} (h : Reach s) (ops : List Op) (hv : ValidFrom s ops)
+    (hn : ∀ op ∈ ops, op ≠ .reset) :
+    (∀ st, s.streams[id]? = some st → ∀ x ∈ streamBlockedReports id s ops, st.base.lastBlockedAt < x) ∧
+    (streamBlockedReports id s ops).Pairwise (· < ·) := by
+  induction ops generalizing s with
+  | nil => simp [streamBlockedReports]
+  | cons op ops ih =>
+    have hr : op ≠ .reset := hn op (by simp)
+    have hno : (step s op).2 ≠ .resetOk := fun e => hr (resetOk_only_reset e)
+    obtain ⟨ih1, ih2⟩ := ih (Reach.step op h hv.1) hv.2 (fun o ho => hn o (by simp [ho]))
+    simp only [streamBlockedReports]
+    cases hs : s.streams[id]? with
+    | none =>
+      have : (match op, (step s op).2, (none : Option Stream) with
+              | .sblocked i, .blocked true _, some st => if i = id then [st.base.sendWindow] else []
+              | _, _, _ => ([] : List Int)) = [] := by
+        split <;> simp_all
+      rw [this]
+      exact ⟨fun st hst => (by cases hst), (by simpa using ih2)⟩
+    | some st =>
+      obtain ⟨st', hs', rel⟩ := stream_step op h.inv hv.1 hs hno
+      have lbm := rel.send.lb
+      have ih1' := ih1 st' hs'
+      by_cases hcb : op = .sblocked id
+      · subst hcb
+        have hlb := (h.inv.streams st (mem_of_getElem? hs)).lb
+        obtain ⟨u1, u2, u3, u4, u5, u6, u7, u8⟩ := blocked_spec st.base
+        have hst' : st' = (st.isNewlyBlocked).1 := by
+          simp only [step, stepT, hs] at hs'
+          have hlt : id < s.streams.length := by
+            rcases Nat.lt_or_ge id s.streams.length with hh | hh
+            · exact hh
+            · rw [List.getElem?_eq_none hh] at hs; cases hs
+          rw [List.getElem?_set_self hlt] at hs'
+          cases hs'; rfl
+        have hout : (step s (.sblocked id)).2 = .blocked (st.isNewlyBlocked).2 0 := by
+          simp only [step, stepT, hs]
+        simp only [Stream.isNewlyBlocked] at hst' hout
+        rw [hout]
+        rcases u8 with ⟨e1, e2⟩ | ⟨e1, e2, e3, e4, e5⟩
+        · simp only [e1]
+          refine ⟨fun st0 hst0 x hx => ?_, by simpa using ih2⟩
+          cases hst0
+          simp only [List.nil_append] at hx
+          have := ih1' x hx
+          subst hst'
+          simp only [] at this
+          omega
+        · simp only [e1, if_true]
+          simp only [List.singleton_append, List.mem_cons, List.pairwise_cons]
+          refine ⟨?_, ?_, ih2⟩
+          · intro st0 hst0 x hx
+            cases hst0
+            rcases hx with hx | hx
+            · omega
+            · have := ih1' x hx
+              subst hst'
+              simp only [] at this
+              omega
+          · intro x hx
+            have := ih1' x hx
+            subst hst'
+            simp only [] at this
+            omega
+      · have : (match op, (step s op).2, some st with
+                | .sblocked i, .blocked true _, some st => if i = id then [st.base.sendWindow] else []
+                | _, _, _ => ([] : List Int)) = [] := by
+          cases op with
+          | sblocked i =>
+            have hne : i ≠ id := fun e => hcb (by rw [e])
+            split <;> simp_all
+          | _ => rfl
+        rw [this]
+        simp only [List.nil_append]
+        refine ⟨fun st0 hst0 x hx => ?_, ih2⟩
+        cases hst0
+        have := ih1' x hx
+        omega
+
+/-- **blocked_once (streams).** The limits at which a stream reports "newly blocked" are strictly
+    increasing along any history. -/
+theorem blocked_once_stream (id : Nat) {s : State} (h : Reach s) (ops : List Op) (hv : ValidFrom s ops)
+    (hn : ∀ op ∈ ops, op ≠ .reset) : (streamBlockedReports id s ops).Pairwise (· < ·) :=
+  (stream_blocked_aux id h ops hv hn).2
+
 end Uquic.Props.C04
